@@ -54,8 +54,10 @@ MinLenFix(ml) ==
 MinLen  == MinLenFix([X \in NT |-> Inf])
 Yield   == [i \in DOMAIN G.prods |-> SumLen(MinLen, Rhs(G.prods[i]), 1)]   \* least yield of each production
 
-VARIABLES done, todo, need, phase, nmut, prev, target, lastop, used, cap
-vars == <<done, todo, need, phase, nmut, prev, target, lastop, used, cap>>
+VARIABLES done, todo, need, phase, nmut, prev, target, lastop, used, cap,
+          origin,     \* for every symbol of todo: the production whose right-hand side put it there (0: the start symbol)
+          pairs       \* <<parent production, child production>> applications so far (context-dependent coverage)
+vars == <<done, todo, need, phase, nmut, prev, target, lastop, used, cap, origin, pairs>>
 
 \* move leading terminals of a sentential form to the produced prefix
 RECURSIVE LeadTerms(_)
@@ -71,6 +73,8 @@ Init == /\ done = <<>>
         /\ target \in {0, Target \div 3, Target}      \* how long this derivation is pushed to grow
         /\ used = [p \in DOMAIN G.prods |-> 0]        \* how often each production was applied
         /\ cap \in 1..3                               \* ... and how often it may be (see Expand)
+        /\ origin = <<0>>
+        /\ pairs = {}
 
 Expand ==
     /\ phase = "derive"
@@ -93,15 +97,18 @@ Expand ==
                  /\ done' = done \o SubSeq(form, 1, k)
                  /\ todo' = SubSeq(form, k + 1, Len(form))
                  /\ need' = need2 - k
+                 /\ pairs' = pairs \cup {<<origin[1], p>>}
+                 /\ origin' = SubSeq([j \in 1..Len(Rhs(G.prods[p])) |-> p] \o Tail(origin), k + 1, Len(form))
     /\ UNCHANGED <<phase, nmut, prev, target, lastop, cap>>
 
 Finish ==
     /\ phase = "derive"
     /\ todo = <<>>
     \* ps: the productions this derivation applied (lets a caller select sentences for production coverage)
-    /\ PrintT(ToJson([kind |-> "sentence", op |-> "", w |-> done, ps |-> {p \in DOMAIN G.prods : used[p] > 0}]))
+    \* pp: the (parent, child) production pairs: which alternative was taken in which context
+    /\ PrintT(ToJson([kind |-> "sentence", op |-> "", w |-> done, ps |-> {p \in DOMAIN G.prods : used[p] > 0}, pp |-> pairs]))
     /\ phase' = "sentence"
-    /\ UNCHANGED <<done, todo, need, nmut, prev, target, lastop, used, cap>>
+    /\ UNCHANGED <<done, todo, need, nmut, prev, target, lastop, used, cap, origin, pairs>>
 
 Delete(s, k)     == SubSeq(s, 1, k - 1) \o SubSeq(s, k + 1, Len(s))
 Insert(s, k, x)  == SubSeq(s, 1, k) \o <<x>> \o SubSeq(s, k + 1, Len(s))        \* after position k
@@ -139,13 +146,13 @@ Mutate ==
     /\ prev' = done
     /\ phase' = "pending"
     /\ nmut' = nmut + 1
-    /\ UNCHANGED <<todo, need, target, used, cap>>
+    /\ UNCHANGED <<todo, need, target, used, cap, origin, pairs>>
 
 EmitMutant ==
     /\ phase = "pending"
     /\ PrintT(ToJson([kind |-> "mutant", op |-> lastop, w |-> done]))
     /\ phase' = "mutant"
-    /\ UNCHANGED <<done, todo, need, nmut, prev, target, lastop, used, cap>>
+    /\ UNCHANGED <<done, todo, need, nmut, prev, target, lastop, used, cap, origin, pairs>>
 
 Next == Expand \/ Finish \/ Mutate \/ EmitMutant
 
@@ -163,6 +170,10 @@ BudgetRespected ==
 NeedIsLeastYield == phase = "derive" => need = SumLen(MinLen, todo, 1)
 
 LeftmostIsNonterminal == (phase = "derive" /\ todo # <<>>) => todo[1] \in NT
+
+OriginTracksTodo == phase = "derive" =>
+    /\ Len(origin) = Len(todo)
+    /\ \A j \in 1..Len(todo) : origin[j] = 0 \/ \E m \in 1..Len(Rhs(G.prods[origin[j]])) : Rhs(G.prods[origin[j]])[m] = todo[j]
 
 OneEditApart(s, t) ==
     \/ Len(t) = Len(s) - 1 /\ \E k \in 1..Len(s) : t = Delete(s, k)
